@@ -156,6 +156,9 @@ def splitSep {α : Type} [DecidableEq α] (sep : α) : List α → List (List α
 def headerLine {α : Type} (hash space nl semi : α) (inctime : Bool) (labels : List (List α)) : List α :=
   [hash, space] ++ (if inctime then semi :: joinSep semi labels else joinSep semi labels) ++ [nl]
 
+/-- `f.readline()`: everything up to and including the first newline token -/
+def firstLine {α : Type} [DecidableEq α] (nl : α) (s : List α) : List α := s.takeWhile (· ≠ nl) ++ [nl]
+
 /-- `label_list` of `read_coeff`: `header[2:-1].split(";")`, minus the first entry with `inctime` -/
 def readLabels {α : Type} [DecidableEq α] (semi : α) (inctime : Bool) (line : List α) : List (List α) :=
   let body := (line.drop 2).dropLast
